@@ -69,6 +69,8 @@ struct Gen {
     rng: Rng,
     ctr: u32,
     xf: bool,
+    /// how flag fields are filled: "rand" | "ones" | "single"
+    bits: String,
 }
 const EXTREMES: [f32; 10] = [
     f32::MAX,
@@ -109,6 +111,19 @@ impl Gen {
     fn u32(&mut self) -> u32 {
         self.ctr += 1;
         self.ctr.wrapping_mul(2654435761) >> 4
+    }
+    /// A flag word over the bits of `mask`: random, all ones, or exactly one bit (rotating with the
+    /// seed-derived stream and the position in the object).
+    fn flags(&mut self, mask: u32) -> u32 {
+        self.ctr += 1;
+        match self.bits.as_str() {
+            "ones" => mask,
+            "single" => {
+                let set: Vec<u32> = (0..32).filter(|b| mask >> b & 1 == 1).collect();
+                1u32 << set[(self.rng.below(set.len() as u64) as usize + self.ctr as usize) % set.len()]
+            }
+            _ => self.rng.next_u32() & mask,
+        }
     }
     fn small(&mut self, n: u64) -> u32 {
         self.rng.below(n) as u32
@@ -196,7 +211,7 @@ fn build_root(c: &Value, g: &mut Gen) -> WmoRoot {
     let mat_flag_bits: u32 = 0xFFF;
     let materials: Vec<WmoMaterial> = (0..n("nmat"))
         .map(|i| WmoMaterial {
-            flags: WmoMaterialFlags::from_bits_truncate((g.u32() & mat_flag_bits) | 0x100),
+            flags: WmoMaterialFlags::from_bits_truncate(g.flags(mat_flag_bits) | if g.bits == "rand" { 0x100 } else { 0 }),
             shader: 1 + g.small(16) + 16 * i as u32,
             blend_mode: g.small(8) + 8 * (i as u32 + 1),
             texture1: if toffs.is_empty() { 1000 + g.u32() % 1000 } else { toffs[i % toffs.len()] },
@@ -212,7 +227,7 @@ fn build_root(c: &Value, g: &mut Gen) -> WmoRoot {
     let groups: Vec<WmoGroupInfo> = gnames
         .into_iter()
         .map(|name| WmoGroupInfo {
-            flags: WmoGroupFlags::from_bits_truncate(g.u32() & 0x3FFFF),
+            flags: WmoGroupFlags::from_bits_truncate(g.flags(0x3FFFF)),
             bounding_box: g.bbox(),
             name,
         })
@@ -299,7 +314,7 @@ fn build_root(c: &Value, g: &mut Gen) -> WmoRoot {
         n_doodad_defs: doodad_defs.len() as u32,
         n_doodad_sets: doodad_sets.len() as u32,
         // every defined bit; HAS_SKYBOX is set or not at random: the writer derives it from `skybox`
-        flags: WmoFlags::from_bits_truncate(g.u32() & 0x3FF),
+        flags: WmoFlags::from_bits_truncate(g.flags(0x3FF)),
         ambient_color: g.color(),
     };
     WmoRoot {
@@ -400,7 +415,7 @@ fn build_group(c: &Value, g: &mut Gen) -> WmoGroup {
         let (w, h) = (n("lw") as u32, n("lh") as u32);
         Some(WmoLiquid {
             liquid_type: g.u32() % 20,
-            flags: g.u32() & 0xFD, // bit 1 is the converter's "V2" marker
+            flags: g.flags(0xFFFF_FFFF), // every bit, including 0x2 (the converter's "V2" marker from WoD on)
             width: w,
             height: h,
             vertices: (0..(w * h)).map(|_| WmoLiquidVertex { position: g.v3(), height: g.f() }).collect(),
@@ -412,7 +427,8 @@ fn build_group(c: &Value, g: &mut Gen) -> WmoGroup {
     let doodad_refs = if opt("ndref") { Some((0..cnt("ndref")).map(|_| g.u16()).collect()) } else { None };
     WmoGroup {
         header: WmoGroupHeader {
-            flags: WmoGroupFlags::from_bits_truncate(g.u32() | 0x3C000), // the version-gated bits are always set
+            // rand: the version-gated bits are always set; ones / single: per the bit class
+            flags: WmoGroupFlags::from_bits_truncate(if g.bits == "rand" { g.u32() | 0x3C000 } else { g.flags(0x3FFFF) }),
             bounding_box: g.bbox(),
             name_offset: g.u32() % 4096,
             group_index: g.u32() % 512,
@@ -517,6 +533,9 @@ fn group_tokens(g: &WmoGroup) -> Toks {
         | WmoGroupFlags::EXTERIOR_BSP
         | WmoGroupFlags::MOUNT_ALLOWED);
     t.insert("ghdr_base", dtok(&hb));
+    let mut hm = g.header.clone();
+    hm.flags &= !WmoGroupFlags::MOUNT_ALLOWED;
+    t.insert("ghdr_nomount", dtok(&hm));
     t.insert("gmaterials", dtok(&g.materials));
     t.insert("vertices", dtok(&g.vertices));
     t.insert("indices", dtok(&g.indices));
@@ -915,7 +934,7 @@ fn shape_attrs(c: &Value) -> Value {
 // case drivers
 // ------------------------------------------------------------------------------------------
 fn run_root(case: &str, c: &Value, lay: &Layout, seed: u64) -> Vec<Value> {
-    let mut g = Gen { rng: Rng::derive(seed, case), ctr: 0, xf: gi(c, "xf") == 1 };
+    let mut g = Gen { rng: Rng::derive(seed, case), ctr: 0, xf: gi(c, "xf") == 1, bits: c.get("bits").and_then(|x| x.as_str()).unwrap_or("rand").to_string() };
     let ver = gi(c, "ver");
     let v = version_of(ver);
     let root = build_root(c, &mut g);
@@ -975,7 +994,7 @@ fn run_root(case: &str, c: &Value, lay: &Layout, seed: u64) -> Vec<Value> {
 }
 
 fn run_group(case: &str, c: &Value, lay: &Layout, seed: u64) -> Vec<Value> {
-    let mut g = Gen { rng: Rng::derive(seed, case), ctr: 0, xf: gi(c, "xf") == 1 };
+    let mut g = Gen { rng: Rng::derive(seed, case), ctr: 0, xf: gi(c, "xf") == 1, bits: c.get("bits").and_then(|x| x.as_str()).unwrap_or("rand").to_string() };
     let ver = gi(c, "ver");
     let v = version_of(ver);
     let grp = build_group(c, &mut g);
@@ -1011,7 +1030,7 @@ fn run_group(case: &str, c: &Value, lay: &Layout, seed: u64) -> Vec<Value> {
 }
 
 fn run_conv(case: &str, c: &Value, seed: u64) -> Vec<Value> {
-    let mut g = Gen { rng: Rng::derive(seed, case), ctr: 0, xf: gi(c, "xf") == 1 };
+    let mut g = Gen { rng: Rng::derive(seed, case), ctr: 0, xf: gi(c, "xf") == 1, bits: c.get("bits").and_then(|x| x.as_str()).unwrap_or("rand").to_string() };
     let (from, to) = (gi(c, "ver"), gi(c, "to"));
     let kind = gs(c, "kind");
     let mut evs = vec![json!({"ev":"Reset","case":case,"kind":kind,"ver":from,"to":to,"brk":"","shape":shape_attrs(c)})];
